@@ -2,7 +2,11 @@ package main
 
 import (
 	"fmt"
+	"go/ast"
+	goparser "go/parser"
 	"go/token"
+	"path/filepath"
+	"strconv"
 	"os"
 	"os/exec"
 	"sort"
@@ -77,6 +81,120 @@ func init() {
 		sort.Strings(missing)
 		out = append(out, &ObResult{Name: "table#stdhints.coverage", Kind: "table", Props: []string{"C18"}, Status: "discharged", Solver: "ground",
 			Src: fmt.Sprintf("%d table entries compared with the %d packages of `go list std`; not in this toolchain (platform-specific), skipped: %s", len(tbl)-len(missing), len(std), strings.Join(missing, ", ")), Queries: 1})
+		return out
+	})
+}
+
+// genjenTable reads the construct table of the generator (/repo/genjen/data.go) from its AST.
+func genjenTable() (groups map[string]map[string]string, keywords, identifiers []string, err error) {
+	fset := token.NewFileSet()
+	f, perr := goparser.ParseFile(fset, filepath.Join(repoDir, "genjen", "data.go"), nil, 0)
+	if perr != nil {
+		return nil, nil, nil, perr
+	}
+	groups = map[string]map[string]string{}
+	strs := func(cl *ast.CompositeLit) []string {
+		var out []string
+		for _, e := range cl.Elts {
+			if bl, ok := e.(*ast.BasicLit); ok {
+				s, _ := strconv.Unquote(bl.Value)
+				out = append(out, s)
+			}
+		}
+		return out
+	}
+	for _, d := range f.Decls {
+		gd, ok := d.(*ast.GenDecl)
+		if !ok {
+			continue
+		}
+		for _, sp := range gd.Specs {
+			vs, ok := sp.(*ast.ValueSpec)
+			if !ok || len(vs.Values) != 1 {
+				continue
+			}
+			cl, ok := vs.Values[0].(*ast.CompositeLit)
+			if !ok {
+				continue
+			}
+			switch vs.Names[0].Name {
+			case "keywords":
+				keywords = strs(cl)
+			case "identifiers":
+				identifiers = strs(cl)
+			case "groups":
+				for _, e := range cl.Elts {
+					row, ok := e.(*ast.CompositeLit)
+					if !ok {
+						continue
+					}
+					m := map[string]string{"opening": "", "closing": "", "separator": "", "multi": "false"}
+					for _, kv := range row.Elts {
+						k, ok := kv.(*ast.KeyValueExpr)
+						if !ok {
+							continue
+						}
+						key := k.Key.(*ast.Ident).Name
+						switch v := k.Value.(type) {
+						case *ast.BasicLit:
+							s, _ := strconv.Unquote(v.Value)
+							m[key] = s
+						case *ast.Ident:
+							m[key] = v.Name
+						}
+					}
+					groups[m["name"]] = m
+				}
+			}
+		}
+	}
+	return
+}
+
+func init() {
+	// C01/C14: the generator's table and the construct table of the contracts describe the same constructs
+	tableChecks = append(tableChecks, func(r *Run) []*ObResult {
+		if r.Prop != "all" && r.Prop != "C01" && r.Prop != "C14" {
+			return nil
+		}
+		groups, keywords, identifiers, err := genjenTable()
+		if err != nil {
+			return []*ObResult{{Name: "table#genjen", Kind: "table", Props: []string{"C01", "C14"}, Status: "error", Detail: err.Error(), Queries: 1}}
+		}
+		rows := map[string]*Construct{}
+		for _, c := range r.L.v.contracts.constructs {
+			rows[c.Name] = c
+		}
+		var out []*ObResult
+		title := func(s string) string { return strings.ToUpper(s[:1]) + s[1:] }
+		for _, name := range sortedKeys(groups) {
+			g := groups[name]
+			res := &ObResult{Name: "table#genjen.group[" + name + "]", Kind: "table", Props: []string{"C01", "C14"}, Status: "discharged", Solver: "ground", Queries: 1,
+				Src: "genjen/data.go and the construct table agree on open/close/separator/multi of " + name}
+			row := rows[name]
+			switch {
+			case row == nil:
+				res.Status, res.Detail = "refuted", "no construct row for generator entry "+name
+			case row.Open != g["opening"] || row.Close != g["closing"] || row.Sep != g["separator"] || fmt.Sprint(row.Multi) != g["multi"]:
+				res.Status = "refuted"
+				res.Detail = fmt.Sprintf("generator: open=%q close=%q sep=%q multi=%s; construct table: open=%q close=%q sep=%q multi=%v", g["opening"], g["closing"], g["separator"], g["multi"], row.Open, row.Close, row.Sep, row.Multi)
+			}
+			out = append(out, res)
+		}
+		for _, kind := range []struct {
+			typ   string
+			words []string
+		}{{"keyword", keywords}, {"identifier", identifiers}} {
+			for _, w := range kind.words {
+				res := &ObResult{Name: "table#genjen." + kind.typ + "[" + w + "]", Kind: "table", Props: []string{"C01", "C14"}, Status: "discharged", Solver: "ground", Queries: 1,
+					Src: "genjen/data.go and the construct table agree on the " + kind.typ + " token " + w}
+				row := rows[title(w)]
+				if row == nil || row.TokTyp != kind.typ || row.TokTxt != w {
+					res.Status, res.Detail = "refuted", "no matching construct row for "+kind.typ+" "+w
+				}
+				out = append(out, res)
+			}
+		}
 		return out
 	})
 }
